@@ -16,7 +16,8 @@ v ::= n | t | f | i8:<int> | i16:<int> | i32:<int> | i64:<int> | f32:<hex8 bits>
 * `variant.enc <v>` → `ok <metadata hex> <value hex>` (MIRROR encoder, dictionary `metaOf v`)
 * `variant.dec <metadata hex> <value hex>` → `ok <v>` / `err <class>` (SPEC decoders)
 * `variant.canon <v>` → `ok <v with object fields sorted by key>`
-* `variant.shred <schema> <v>` → `ok <shredded text> <reconstructed v>` (logical shredding model) -/
+* `variant.shred <schema> <v>` → `ok <shredded text> <reconstructed v> <non-null count per leaf column>`
+  (logical shredding model) -/
 namespace Driver.Ops.C19
 open Driver PqModel.Variant
 
@@ -256,9 +257,10 @@ def handle (toks : List String) : Option String :=
     match parseSchema? sch, parseValue? txt with
     | some s, some v =>
       let sl := shred s v
+      let cnt := Driver.showList (fun (n : Nat) => toString n) (leafCounts s sl)
       match unshred s sl with
-      | some r => s!"ok {showSlot sl} {showV r}"
-      | none => s!"ok {showSlot sl} invalid"
+      | some r => s!"ok {showSlot sl} {showV r} {cnt}"
+      | none => s!"ok {showSlot sl} invalid {cnt}"
     | _, _ => "bad-op"
   | _ => none
 
